@@ -1,15 +1,28 @@
-import PsV.Proofs.Lifecycle
+import PsV.Proofs.LifecycleWorld
 /-!
 # C20 — a table object stays valid and leak-free across any history, even failed calls
 
 Property theorems only.  They are about `PsV.Lifecycle.step` / `run`, the definitions the driver
-executes, at `Cfg.repaired` (the code with fixes/C20-1 … C20-11 and C16-4 applied; C20-11 stands in for
-the C07 read guard).  Histories are arbitrary `List Op` (unbounded length, any number of object slots,
-operations on dead slots are skipped), the environment `cd` is an arbitrary position of one injected
-`std::bad_alloc`, and read / fit failures are arbitrary arguments of the operations.
+executes.  Histories are arbitrary `List Op` (unbounded length, any number of object slots, operations
+on dead slots are skipped) over the whole modelled API — default / file / stacking construction, read,
+fit, key edits, convolve, permute, move construction / assignment, comparison, write, destruction —;
+the environment `cd` is an arbitrary position of one injected `std::bad_alloc`, and read, GLAM and output
+failures are arbitrary arguments of the operations.
 
-The code as it is in the snapshot (`Cfg.asIs`) violates every one of the four statements; the
-`asIs_*` theorems are the decided witnesses, each keyed by the minimal failing history.
+Three layers:
+* `Cfg.repaired` (every fix in force, C20-1 … C20-15, C16-4): the full property for all histories
+  (`C20_ownership_inv` … `C20_no_undefined_behaviour`).
+* any `Cfg` (`C20_anyCfg_*`): the invariant, absence of undefined behaviour and "failed ⇒ unchanged or empty"
+  hold for every call issued in the circumstances `SafeCall c w op` — for each repair, either it is in
+  force or the call does not run into the defect it repairs.  This covers every operation for the
+  snapshot `Cfg.asIs` (superseding `C20_asIs_partial`) and for `Cfg.head`.
+* `Cfg.head` (/repo today, what the driver runs by default: C20-1 … C20-12 in force, the three repairs of
+  the stacking constructor C20-13 … C20-15 only proposed): equal to `Cfg.repaired` on every history
+  without a stacking constructor (`C20_head_eq_repaired`), and with it everything but the `extents` clause
+  as long as its arguments are usable and no allocation fails inside it (`C20_head_*`).
+
+The `asIs_*` / `head_*` witness theorems are decided counterexamples, one per defect, keyed by the
+minimal failing history.
 -/
 namespace PsV
 open Lifecycle
@@ -38,7 +51,7 @@ theorem C20_ledger_empty_after_destroy (cd : Option Nat) (ops : List Op) :
     (∀ t, some t ∈ (C20.reach cd ops).objs → (destroy t).1.ledger = [] ∧ (destroy t).1.bad = 0) ∧
     (∀ r ∈ (destroyAll Cfg.repaired (C20.reach cd ops)).retired, r = ([], 0)) :=
   ⟨(run_inv (World.init_inv cd) ops).dead,
-   fun t h => destroy_spec t ((run_inv (World.init_inv cd) ops).live t h),
+   fun t h => destroy_spec t ((run_inv (World.init_inv cd) ops).live t h).toInvX,
    (run_inv (run_inv (World.init_inv cd) ops) _).dead⟩
 
 theorem onTab_get {w : World} {i : Nat} {t : Tab} (f : Tab → Option Nat → Out) (h : w.get i = some t) :
@@ -47,30 +60,99 @@ theorem onTab_get {w : World} {i : Nat} {t : Tab} (f : Tab → Option Nat → Ou
   rw [h]
   exact ⟨World.get_put_same w i _, rfl⟩
 
+/-! ## Every operation, every configuration -/
+
+/-- **anyCfg_step**: whatever the configuration, a call issued in the circumstances `SafeCall c w op` keeps
+    every table destructible and leak-free (`InvX`: ownership without the `extents` clause, balanced ledger,
+    dead objects returned everything), has no undefined behaviour, and keeps the full invariant `Inv` unless it is
+    the stacking constructor without C20-13. -/
+theorem C20_anyCfg_step (c : Cfg) (w : World) (op : Op) (h : w.InvX) (hs : SafeCall c w op) :
+    (step c w op).w.InvX ∧ (step c w op).res ≠ .crash ∧
+    (w.Inv → c.stackExtents = true ∨ op.isStack = false → (step c w op).w.Inv) :=
+  ⟨(step_ok c h op hs).inv, (step_ok c h op hs).nocrash,
+   fun hi he => (step_ok c h op hs).inv.toInv ((step_ok c h op hs).ext hi.allExt he)⟩
+
+/-- **anyCfg_history**: the same along a whole history all of whose calls are safe where they are issued. -/
+theorem C20_anyCfg_history (c : Cfg) (w : World) (ops : List Op) (h : w.InvX) (hs : SafeHist c w ops) :
+    (run c w ops).InvX ∧
+    (∀ pre op post, ops = pre ++ op :: post → (step c (run c w pre) op).res ≠ .crash) ∧
+    (w.Inv → (c.stackExtents = true ∨ ∀ op ∈ ops, op.isStack = false) → (run c w ops).Inv) :=
+  ⟨run_invX c ops h hs, fun pre op post e => run_nocrash c ops pre op post h hs e, fun hi he => run_inv_of c ops hi hs he⟩
+
+/-- **anyCfg_failed_op_unchanged_or_empty**: whatever the configuration, a safe call on a table that throws
+    leaves that table unchanged or empty. -/
+theorem C20_anyCfg_failed_op_unchanged_or_empty (c : Cfg) {w : World} (h : w.InvX) (op : Op) (i : Nat) (t : Tab)
+    (hop : op.target = some i) (hget : w.get i = some t) (hs : SafeCall c w op)
+    (hthrew : (step c w op).res = .threw) :
+    ∃ t', (step c w op).w.get i = some t' ∧ (t'.shape = t.shape ∨ t'.isEmpty = true) := by
+  have hinv : t.InvX := h.live t (World.get_mem hget)
+  have key : ∀ f : Tab → Option Nat → Out, Spec t (f t w.cd) → (onTab w i f).res = .threw →
+      ∃ t', (onTab w i f).w.get i = some t' ∧ (t'.shape = t.shape ∨ t'.isEmpty = true) := by
+    intro f hsp hr
+    obtain ⟨h1, h2⟩ := onTab_get f hget
+    exact ⟨_, h1, hsp.threw (h2 ▸ hr)⟩
+  cases op <;> simp only [Op.target, Option.some.injEq, reduceCtorEq] at hop <;> subst hop <;>
+    simp only [step] at hthrew ⊢ <;> simp only [SafeCall] at hs
+  · exact key _ (read_spec c t _ _ hinv (hs t hget)) hthrew
+  · exact key _ (fit_spec c t _ _ hinv (hs t hget)) hthrew
+  · exact key _ (writeKey_spec c t _ _ hinv (hs t hget)) hthrew
+  · exact key _ (removeKey_spec c t _ _ hinv (hs t hget)) hthrew
+  · exact key _ (getKey_spec t _ _ hinv) hthrew
+  · exact key _ (convolve_spec c t _ _ _ hinv (hs t hget)) hthrew
+  · exact key _ (permute_spec c t _ _ hinv (hs t hget)) hthrew
+  · exact key _ (writeFits_spec t _ _ hinv) hthrew
+
+/-- hypotheses of the three `anyCfg` theorems, for the snapshot: a fitted table; `read` into it is safe (it is refused)
+    and throws; `fit` on it is not safe (C20-2) -/
+example : (run Cfg.asIs (World.init none) [.construct 0, .fit 0 ⟨true, true, [⟨2, 8, 5⟩]⟩]).InvX :=
+  (C20_anyCfg_history Cfg.asIs _ _ (World.init_inv none).toInvX (safeHistB_sound (by decide))).1
+example : SafeCall Cfg.asIs (run Cfg.asIs (World.init none) [.construct 0, .fit 0 ⟨true, true, [⟨2, 8, 5⟩]⟩])
+    (.read 0 ⟨0, 0, [⟨2, 8, 5⟩], true, []⟩) := safeCallB_sound (by decide)
+example : (step Cfg.asIs (run Cfg.asIs (World.init none) [.construct 0, .fit 0 ⟨true, true, [⟨2, 8, 5⟩]⟩])
+    (.read 0 ⟨0, 0, [⟨2, 8, 5⟩], true, []⟩)).res = .threw := by decide
+example : safeCallB Cfg.asIs (run Cfg.asIs (World.init none) [.construct 0, .fit 0 ⟨true, true, [⟨2, 8, 5⟩]⟩])
+    (.fit 0 ⟨true, true, [⟨2, 8, 5⟩]⟩) = false := by decide
+
+/-- **safeCall_repaired**: with every repair in force no circumstance is excluded: in a world whose tables satisfy
+    the invariant every call is safe.  (So the `anyCfg` theorems specialise to the `Cfg.repaired` theorems.) -/
+theorem C20_safeCall_repaired (w : World) (h : w.Inv) (op : Op) : SafeCall Cfg.repaired w op :=
+  safeCall_repaired h.allExt op
+
+example : (World.init (some 3)).Inv := World.init_inv _
+
+/-- **stack_sources_untouched**: whatever the configuration and however it ends, the stacking constructor changes
+    no object other than the one it constructs. -/
+theorem C20_stack_sources_untouched (c : Cfg) (w : World) (i : Nat) (srcs : List Nat) (order : Nat) (j : Nat) (hj : i ≠ j) :
+    (step c w (.stack i srcs order)).w.get j = w.get j := by
+  simp only [step]
+  cases w.get i with
+  | some _ => rfl
+  | none =>
+    cases srcs.mapM w.get with
+    | none => rfl
+    | some ts =>
+      simp only [stack, stackFail]
+      repeat' split
+      all_goals first | rfl | exact World.get_put_ne w _ hj
+
+/-! ## The repaired code, continued -/
+
 /-- **failed_op_unchanged_or_empty**: in a reachable world, an operation on a table that throws
     (invalid argument, I/O failure, allocation failure, failed fit) leaves that table with its abstract
-    state unchanged, or empty; and no operation has undefined behaviour. -/
+    state unchanged, or empty; and no operation has undefined behaviour (`C20_no_undefined_behaviour`). -/
 theorem C20_failed_op_unchanged_or_empty (cd : Option Nat) (ops : List Op) (op : Op) (i : Nat) (t : Tab)
     (hop : op.target = some i) (hget : (C20.reach cd ops).get i = some t)
     (hthrew : (step Cfg.repaired (C20.reach cd ops) op).res = .threw) :
     ∃ t', (step Cfg.repaired (C20.reach cd ops) op).w.get i = some t' ∧
-      (t'.shape = t.shape ∨ t'.isEmpty = true) := by
-  have hinv : t.Inv := (run_inv (World.init_inv cd) ops).live t (World.get_mem hget)
-  have key : ∀ f : Tab → Option Nat → Out, Spec t (f t (C20.reach cd ops).cd) →
-      (onTab (C20.reach cd ops) i f).res = .threw →
-      ∃ t', (onTab (C20.reach cd ops) i f).w.get i = some t' ∧ (t'.shape = t.shape ∨ t'.isEmpty = true) := by
-    intro f hs hr
-    obtain ⟨h1, h2⟩ := onTab_get f hget
-    exact ⟨_, h1, hs.2.1 (h2 ▸ hr)⟩
-  cases op <;> simp only [Op.target, Option.some.injEq, reduceCtorEq] at hop <;> subst hop <;> simp only [step] at hthrew ⊢
-  · exact key _ (read_spec t _ _ hinv) hthrew
-  · exact key _ (fit_spec t _ _ hinv) hthrew
-  · exact key _ (writeKey_spec t _ _ hinv) hthrew
-  · exact key _ (removeKey_spec t _ _ hinv) hthrew
-  · exact key _ ⟨hinv, fun _ => Or.inl rfl, by simp [getKey]; split <;> simp⟩ hthrew
-  · exact key _ (convolve_spec t _ _ _ hinv) hthrew
-  · exact key _ (permute_spec t _ _ hinv) hthrew
-  · exact key _ ⟨hinv, fun _ => Or.inl rfl, by simp [writeFits]; split <;> simp⟩ hthrew
+      (t'.shape = t.shape ∨ t'.isEmpty = true) :=
+  C20_anyCfg_failed_op_unchanged_or_empty Cfg.repaired (run_inv (World.init_inv cd) ops).toInvX op i t hop hget
+    (safeCall_repaired (run_inv (World.init_inv cd) ops).allExt op) hthrew
+
+/-- **no_undefined_behaviour**: no call of any history has undefined behaviour (null dereference, out-of-bounds
+    write, double free — `Res.crash` in the model), whatever its arguments and whichever allocation fails. -/
+theorem C20_no_undefined_behaviour (cd : Option Nat) (ops : List Op) (op : Op) :
+    (step Cfg.repaired (C20.reach cd ops) op).res ≠ .crash :=
+  step_nocrash (run_inv (World.init_inv cd) ops) op
 
 /-- **moved_from_empty**: after move construction or move assignment from a different object the
     source is the empty table (`ndim = 0`, nothing owned, empty ledger). -/
@@ -88,6 +170,7 @@ theorem C20_moved_from_empty (w : World) (i j : Nat) (hij : i ≠ j) :
     simpa [World.get, World.put] using this
 
 
+
 /-! ## Non-vacuity: concrete histories exercising the hypotheses -/
 
 namespace C20
@@ -97,27 +180,50 @@ def fit1 : FitArgs := ⟨true, true, d1⟩
 def file2 : FileDesc := ⟨0, 0, d2, true, [⟨7, 4, 11, 9⟩]⟩
 def badFile : FileDesc := ⟨3, 1, d2, true, [⟨7, 4, 11, 9⟩]⟩
 def key1 : KeyArg := ⟨0, 1, 4, 4⟩
-/-- read, edit keys, convolve, permute, move, compare, destroy — with the 30th allocation failing (inside convolve) -/
+/-- read, edit keys, convolve, permute, move, compare, write (one hitting an I/O error), stack, a fit whose GLAM
+    step fails, destroy — with the 30th allocation failing (inside convolve) -/
 def hist : List Op :=
   [.construct 0, .read 0 file2, .writeKey 0 key1, .writeKey 0 ⟨0, 1, 4, 9⟩, .removeKey 0 7, .construct 1,
    .fit 1 fit1, .read 1 file2, .permute 0 [1, 0], .convolve 0 1 2, .moveAssign 1 0, .moveConstruct 2 1,
-   .compare 0 1, .read 0 badFile, .writeFits 2, .destroy 2]
+   .compare 0 1, .read 0 badFile, .writeFits 2 true, .writeFits 2 false, .stack 3 [2, 2, 2] 2,
+   .fit 0 ⟨true, false, d1⟩, .destroy 2]
+/-- three fitted tables stacked, the result used and destroyed -/
+def stackHist : List Op :=
+  [.construct 0, .fit 0 fit1, .construct 1, .fit 1 fit1, .stack 2 [0, 1, 0] 2, .writeFits 2 true, .destroy 0, .destroy 1]
 end C20
 
 example : (C20.reach none C20.hist).okB = true := by decide
 example : (C20.reach (some 29) C20.hist).okB = true := by decide
-example : ((C20.reach none C20.hist).objs.map (Option.map Tab.ndim)) = [some 0, some 0, none] := by decide
-example : (C20.reach none C20.hist).retired.length = 2 := by decide
+example : ((C20.reach none C20.hist).objs.map (Option.map Tab.ndim)) = [some 0, some 0, none, some 3] := by decide
+example : (C20.reach none C20.hist).retired.length = 4 := by decide
 /-- a throwing call that leaves the table unchanged (read into a populated table) and one that empties it
     (allocation failure inside convolve) -/
 example : (step Cfg.repaired (C20.reach none [.construct 0, .read 0 C20.file2]) (.read 0 C20.file2)).res = .threw := by decide
 example : (step Cfg.repaired (C20.reach (some 16) [.construct 0, .read 0 C20.file2]) (.convolve 0 0 2)).res = .threw ∧
     ((step Cfg.repaired (C20.reach (some 16) [.construct 0, .read 0 C20.file2]) (.convolve 0 0 2)).w.get 0).map Tab.isEmpty = some true := by decide
 example : (step Cfg.repaired (C20.reach none [.construct 0, .read 0 C20.file2]) (.moveConstruct 1 0)).done = true := by decide
+/-- a fit whose GLAM step fails and a write hitting an I/O error throw and leave the table as it was -/
+example : (step Cfg.repaired (C20.reach none [.construct 0]) (.fit 0 ⟨true, false, C20.d1⟩)).res = .threw ∧
+    ((step Cfg.repaired (C20.reach none [.construct 0]) (.fit 0 ⟨true, false, C20.d1⟩)).w.get 0).map Tab.isEmpty = some true := by decide
+example : (step Cfg.repaired (C20.reach none [.construct 0, .read 0 C20.file2]) (.writeFits 0 false)).res = .threw := by decide
+/-- the stacking constructor: completing; with each of its 26 allocations failing in turn; with unusable arguments -/
+example : (C20.reach none C20.stackHist).okB = true ∧
+    ((C20.reach none C20.stackHist).objs.map (Option.map Tab.ndim)) = [none, none, some 2] := by decide
+example : ∀ k ∈ List.range 26, (run Cfg.repaired (C20.reach none (C20.stackHist.take 4)) [.stack 2 [0, 1, 0] 2]).okB = true ∧
+    (step Cfg.repaired { C20.reach none (C20.stackHist.take 4) with cd := some k } (.stack 2 [0, 1, 0] 2)).res = .threw := by decide
+example : (step Cfg.repaired (C20.reach none [.construct 0]) (.convolve 0 0 2)).res = .threw := by decide
+example : (step Cfg.repaired (C20.reach none [.construct 0, .read 0 C20.file2]) (.stack 1 [0] 2)).res = .threw := by decide
+/-- `SafeHist` is satisfiable for the snapshot by a history which uses every operation excluded from `C20.harmless`
+    (and is then kept by `C20_anyCfg_history`) -/
+example : SafeHist Cfg.asIs (World.init none)
+    [.construct 0, .fit 0 C20.fit1, .writeKey 0 C20.key1, .removeKey 0 1, .convolve 0 0 2, .permute 0 [0], .construct 1,
+     .read 1 ⟨0, 0, C20.d2, true, [⟨7, 4, 9, 9⟩]⟩, .compare 0 1, .moveAssign 0 1, .constructFile 2 ⟨0, 0, C20.d1, true, []⟩,
+     .destroy 0] := safeHistB_sound (by decide)
 
 /-! ## The code as it is: decided witnesses (`Cfg.asIs`), one per defect, keyed by the minimal history
 
-The full statements above are FALSE for the snapshot; what holds for it is `C20_asIs_partial` below. -/
+The full statements above are FALSE for the snapshot; what holds for it is `C20_anyCfg_step` with `SafeCall Cfg.asIs`
+(and its corollary `C20_asIs_partial`) below. -/
 
 def C20.asIs (cd : Option Nat) (ops : List Op) : World := run Cfg.asIs (World.init cd) ops
 
@@ -170,44 +276,164 @@ theorem C20_asIs_move_assign_not_empty :
 theorem C20_asIs_read_failure :
     ((C20.asIs none [.construct 0, .read 0 C20.badFile]).get 0).map Tab.broken = some true := by decide
 
-/-- What does hold for the snapshot (`_partial`): histories made only of default construction, move
-    construction, reading keys, writing files and destruction keep every invariant — every other
-    operation has a falsifying history above. -/
+
+/-- the stacking constructor never deletes the two padding tables it makes: 2 × 9 blocks stay allocated (fix C20-12) -/
+theorem C20_asIs_stack_leaks_paddings :
+    (C20.asIs none C20.stackHist).retired.map (fun r => r.1.length) = [0, 0, 9, 9] := by decide
+
+/-- What does hold for the snapshot without looking at the circumstances (`_partial`): histories made only of
+    default construction, move construction, reading keys, writing files and destruction keep every invariant.
+
+    **Excluded** from `harmless`, each because of the defect named (the decided witnesses above), and what
+    `SafeCall Cfg.asIs` demands of a call instead (`C20_asIs_safeCall`):
+    * `constructFile`, `read` — a failed read leaves a half-built table / leaks (C20-11); aux values are released
+      with another size than allocated (C20-9).  Safe when the read runs to its end and no aux value changes size.
+    * `fit` — on a populated table leaks it (C20-2); failure leaves a half-built table (C20-3).  Safe on an empty
+      table when no allocation and not GLAM fails (or the arguments are refused).
+    * `writeKey` — on an empty table leaks (C20-1).  Safe on a populated table (or when the key is refused).
+    * `removeKey` — allocation failure leaves `aux` dangling (C20-6).  Safe when the allocation succeeds or the key is absent.
+    * `convolve` — bad dimension / empty kernel dereferences null (C20-5), allocation failure leaves dangling
+      pointers (C20-4).  Safe with arguments in range and no allocation failure.
+    * `permute` — `permuteDimensions({})` on an empty table overflows (C20-8).  Safe on a populated table or with a refused permutation.
+    * `compare` — two empty tables: null dereference (C20-7).  Safe when one of them is populated.
+    * `moveAssign` — keeps the invariant (always safe); what fails is `moved_from_empty` (C20-10).
+    * `stack` — always leaks its paddings when it completes (C20-12), leaks on allocation failure (C20-14), undefined
+      behaviour on unusable arguments (C20-15): safe only when an allocation failure hits it **and** … never, for
+      usable arguments (`C20_asIs_stack_never_safe`). -/
 def C20.harmless : Op → Bool
-  | .construct _ | .moveConstruct _ _ | .getKey _ _ | .writeFits _ | .destroy _ => true
+  | .construct _ | .moveConstruct _ _ | .getKey _ _ | .writeFits _ _ | .destroy _ => true
   | _ => false
 
 theorem C20_asIs_partial (w : World) (h : w.Inv) (op : Op) (hop : C20.harmless op = true) :
     (step Cfg.asIs w op).w.Inv := by
-  cases op <;> simp only [C20.harmless, Bool.false_eq_true] at hop
-  · simp only [step]
-    cases hg : w.get _ with
-    | some _ => exact h
-    | none => exact h.put _ (fun t e => by cases e; exact Tab.empty_inv)
-  · exact onTab_inv h fun t ht => ht
-  · rename_i i j
-    simp only [step]
-    cases hi : w.get i with
-    | some _ => cases w.get j <;> exact h
-    | none =>
-      cases hj : w.get j with
-      | none => exact h
-      | some s =>
-        have hs := h.live s (World.get_mem hj)
-        exact (h.put i (o := some s) (fun t e => by cases e; exact hs)).put j (fun t e => by cases e; exact Tab.empty_inv)
-  · exact onTab_inv h fun t ht => ht
-  · rename_i i
-    simp only [step]
-    cases hi : w.get i with
-    | none => exact h
-    | some t =>
-      have ht := h.live t (World.get_mem hi)
-      have h2 := h.put i (o := none) (fun t e => by cases e)
-      refine ⟨h2.live, fun r hr => ?_⟩
-      rcases List.mem_cons.mp hr with e | e
-      · subst e; obtain ⟨a, b⟩ := destroy_spec t ht; rw [a, b]
-      · exact h.dead r e
+  refine (C20_anyCfg_step Cfg.asIs w op h.toInvX ?_).2.2 h (Or.inr ?_)
+  · cases op <;> simp only [C20.harmless, Bool.false_eq_true] at hop <;> trivial
+  · cases op <;> simp only [C20.harmless, Bool.false_eq_true] at hop <;> rfl
 
-example : (run Cfg.asIs (World.init none) [.construct 0, .moveConstruct 1 0, .getKey 1 3, .destroy 1]).okB = true := by decide
+example : (run Cfg.asIs (World.init none) [.construct 0, .moveConstruct 1 0, .getKey 1 3, .writeFits 1 false, .destroy 1]).okB = true := by decide
+
+/-- **asIs_safeCall**: what `SafeCall` demands of the operations excluded from `harmless` in the snapshot, spelled
+    out (sufficient conditions in terms of the arguments and of `Completes`, the program running to its end). -/
+theorem C20_asIs_safeCall (w : World) :
+    (∀ i j, SafeCall Cfg.asIs w (.moveAssign i j)) ∧
+    (∀ i f, Completes w.cd (readSteps Cfg.asIs f) → (∀ e ∈ f.aux, e.stored = e.raw) →
+      SafeCall Cfg.asIs w (.read i f) ∧ SafeCall Cfg.asIs w (.constructFile i f)) ∧
+    (∀ i a, (∀ t, w.get i = some t → t.ndim = 0) → Completes w.cd (fitSteps a) → SafeCall Cfg.asIs w (.fit i a)) ∧
+    (∀ i a, (∀ t, w.get i = some t → t.ndim ≠ 0) → SafeCall Cfg.asIs w (.writeKey i a)) ∧
+    (∀ i id, (∀ t, w.get i = some t → Completes w.cd [.a (8 * (t.aux.length - 1))]) → SafeCall Cfg.asIs w (.removeKey i id)) ∧
+    (∀ i dim nk, (∀ t, w.get i = some t → dim < t.ndim ∧ nk ≠ 0 ∧ t.noExtents = false ∧ Completes w.cd (convSteps t dim nk)) →
+      SafeCall Cfg.asIs w (.convolve i dim nk)) ∧
+    (∀ i p, (∀ t, w.get i = some t → t.ndim ≠ 0 ∧ t.noExtents = false) → SafeCall Cfg.asIs w (.permute i p)) ∧
+    (∀ i j, (∀ t, w.get i = some t → t.ndim ≠ 0) → SafeCall Cfg.asIs w (.compare i j)) := by
+  refine ⟨fun _ _ => trivial, fun i f hc he => ⟨fun t _ => Or.inr ⟨Or.inr hc, Or.inr he⟩, fun _ => ⟨Or.inr hc, Or.inr he⟩⟩,
+    fun i a h0 hc t ht => ⟨Or.inr (Or.inl (h0 t ht)), Or.inr hc⟩, fun i a h0 t ht => Or.inr (Or.inl (h0 t ht)),
+    fun i id hc t ht => Or.inr (Or.inr (hc t ht)), fun i dim nk hc t ht => ?_, fun i p hc t ht => ?_,
+    fun i j h0 t s ht _ => Or.inr (Or.inl (h0 t ht))⟩
+  · obtain ⟨h1, h2, h3, h4⟩ := hc t ht
+    exact ⟨Or.inr ⟨h1, h2⟩, Or.inl h3, Or.inr h4⟩
+  · obtain ⟨h1, h2⟩ := hc t ht
+    exact ⟨Or.inr (Or.inl h1), Or.inl h2⟩
+
+/-- in the snapshot the stacking constructor is never safe for usable arguments: it leaks its paddings when it
+    completes and whatever it had obtained when an allocation fails -/
+theorem C20_asIs_stack_never_safe (cd : Option Nat) (ts : List Tab) (order : Nat) (hv : stackValid ts = true) :
+    ¬ StackSafe Cfg.asIs cd ts order := by
+  intro ⟨_, h⟩
+  obtain ⟨h1, h2⟩ := h hv
+  have hc := h1.resolve_left (by decide)
+  exact (h2.resolve_left (by decide)) hc
+
+example : stackValid [{ ndim := 1, dims := [⟨2, 8, 5⟩], core := true }, { ndim := 1, dims := [⟨2, 8, 5⟩], core := true }] = true := by decide
+
+/-! ## The library as it is today (`Cfg.head`): what the driver runs
+
+C20-1 … C20-12 are in /repo; modelling the stacking constructor showed three more defects, for which repairs are
+proposed (fixes/C20-13 … C20-15) but not in /repo.  Witnesses first, then what holds. -/
+
+def C20.head (cd : Option Nat) (ops : List Op) : World := run Cfg.head (World.init cd) ops
+
+/-- the table made by the stacking constructor has no `extents` arrays (`extents == NULL`, `ndim ≠ 0`): the ownership
+    invariant fails (proposed fix C20-13) … -/
+theorem C20_head_stack_no_extents :
+    ((C20.head none C20.stackHist).get 2).map Tab.noExtents = some true ∧ (C20.head none C20.stackHist).okB = false ∧
+    (C20.head none C20.stackHist).okXB = true := by decide
+
+/-- … and `permuteDimensions` / `convolve` on it read through the null pointer -/
+theorem C20_head_stack_then_permute_or_convolve :
+    (step Cfg.head (C20.head none C20.stackHist) (.permute 2 [1, 0])).res = .crash ∧
+    (step Cfg.head (C20.head none C20.stackHist) (.convolve 2 0 3)).res = .crash := by decide
+
+/-- an allocation failure inside the stacking constructor (here: the 20th of its 26 allocations) leaks what the three
+    objects had obtained: 9 + 9 + 1 blocks (proposed fix C20-14) -/
+theorem C20_head_stack_alloc_failure :
+    (step Cfg.head { C20.head none (C20.stackHist.take 4) with cd := some 19 } (.stack 2 [0, 1, 0] 2)).res = .threw ∧
+    ((step Cfg.head { C20.head none (C20.stackHist.take 4) with cd := some 19 } (.stack 2 [0, 1, 0] 2)).w.retired.map
+      (fun r => r.1.length)) = [9, 9, 1] := by decide
+
+/-- a single table, an empty table among the inputs, tables of different shapes: undefined behaviour (the arguments are
+    examined by `assert` only, and not all of these by any; proposed fix C20-15) -/
+theorem C20_head_stack_unusable_arguments :
+    (step Cfg.head (C20.head none (C20.stackHist.take 4)) (.stack 2 [0] 2)).res = .crash ∧
+    (step Cfg.head (C20.head none (C20.stackHist.take 4 ++ [.construct 3])) (.stack 2 [0, 3, 1] 2)).res = .crash ∧
+    (step Cfg.head (C20.head none (C20.stackHist.take 4 ++ [.convolve 1 0 2])) (.stack 2 [0, 1, 0] 2)).res = .crash := by decide
+
+/-- **head_eq_repaired**: on every operation but the stacking constructor `Cfg.head` is `Cfg.repaired` … -/
+theorem C20_head_eq_repaired (w : World) (op : Op) (h : op.isStack = false) : step Cfg.head w op = step Cfg.repaired w op := by
+  cases op <;> first | rfl | (simp [Op.isStack] at h)
+
+/-- … so a history without it reaches the same world, and all theorems about `C20.reach` apply to what the driver runs -/
+theorem C20_head_reach_eq (cd : Option Nat) (ops : List Op) (h : ∀ op ∈ ops, op.isStack = false) :
+    C20.head cd ops = C20.reach cd ops := by
+  unfold C20.head C20.reach
+  generalize World.init cd = w
+  induction ops generalizing w with
+  | nil => rfl
+  | cons op ops ih =>
+    simp only [run, List.foldl_cons]
+    rw [C20_head_eq_repaired w op (h op List.mem_cons_self)]
+    exact ih (fun o ho => h o (List.mem_cons_of_mem _ ho)) _
+
+example : ∀ op ∈ (C20.hist.take 16), op.isStack = false := by decide
+
+/-- **head_safeCall**: in the library as it is, a call is safe unless it is `convolve` / `permuteDimensions` on a table
+    without `extents` (and not refused anyway), or a stacking constructor with unusable arguments or hit by the
+    injected allocation failure. -/
+theorem C20_head_safeCall (w : World) (op : Op)
+    (hconv : ∀ i dim nk, op = .convolve i dim nk → ∀ t, w.get i = some t → t.noExtents = false ∨ t.ndim ≤ dim ∨ nk = 0)
+    (hperm : ∀ i p, op = .permute i p → ∀ t, w.get i = some t → t.noExtents = false ∨ p.isPerm (List.range t.ndim) = false)
+    (hstack : ∀ i srcs order, op = .stack i srcs order → ∀ ts, srcs.mapM w.get = some ts →
+      stackValid ts = true ∧ StackCompletes Cfg.head w.cd (ts.headD Tab.empty).dims ts.length order) :
+    SafeCall Cfg.head w op := by
+  cases op <;> simp only [SafeCall]
+  · intro _; exact ⟨Or.inl rfl, Or.inl rfl⟩
+  · intro t _; exact Or.inr ⟨Or.inl rfl, Or.inl rfl⟩
+  · intro t _; exact ⟨Or.inl rfl, Or.inl rfl⟩
+  · intro t _; exact Or.inl rfl
+  · intro t _; exact Or.inl rfl
+  · intro t ht; exact ⟨Or.inl rfl, hconv _ _ _ rfl t ht, Or.inl rfl⟩
+  · intro t ht; exact ⟨Or.inl rfl, hperm _ _ rfl t ht⟩
+  · intro t s _ _; exact Or.inl rfl
+  · intro _ ts hm
+    obtain ⟨hv, hc⟩ := hstack _ _ _ rfl ts hm
+    exact ⟨Or.inr hv, fun _ => ⟨Or.inr hc, Or.inl rfl⟩⟩
+
+/-- **head_invX** (`_partial`: the `extents` clause of the ownership invariant and the unsafe calls are what is
+    missing, see the witnesses): along every history of safe calls, under any allocation-failure position, the library as
+    it is keeps every table destructible and leak-free, every dead object has returned all memory exactly once —
+    including the padding tables of the stacking constructor —, no call has undefined behaviour, and destroying
+    everything that is still alive leaves nothing behind. -/
+theorem C20_head_invX_partial (cd : Option Nat) (ops : List Op) (hs : SafeHist Cfg.head (World.init cd) ops) :
+    (∀ t, some t ∈ (C20.head cd ops).objs → t.OwnX ∧ t.ledger.Perm t.blocks ∧ t.bad = 0) ∧
+    (∀ r ∈ (C20.head cd ops).retired, r = ([], 0)) ∧
+    (∀ pre op post, ops = pre ++ op :: post → (step Cfg.head (C20.head cd pre) op).res ≠ .crash) ∧
+    (∀ r ∈ (destroyAll Cfg.head (C20.head cd ops)).retired, r = ([], 0)) := by
+  have h := C20_anyCfg_history Cfg.head (World.init cd) ops (World.init_inv cd).toInvX hs
+  refine ⟨fun t ht => ⟨(h.1.live t ht).toOwnX, (h.1.live t ht).ledger, (h.1.live t ht).bad⟩, h.1.dead, h.2.1, ?_⟩
+  exact (run_invX Cfg.head _ h.1 (safeHist_destroys Cfg.head _ _)).dead
+
+/-- the stacked table is used, moved and destroyed; the failing stacking constructor of the witness above is not safe -/
+example : SafeHist Cfg.head (World.init none) (C20.stackHist ++ [.writeKey 2 C20.key1, .moveConstruct 0 2, .permute 0 [0], .destroy 0]) :=
+  safeHistB_sound (by decide)
+example : safeCallB Cfg.head { C20.head none (C20.stackHist.take 4) with cd := some 19 } (.stack 2 [0, 1, 0] 2) = false := by decide
 
 end PsV
